@@ -16,7 +16,7 @@ RULE = ("cases: (a) Bitarray / Memory.incr_bits+get_bits op sequences on a seed 
 TRUSTED_BASE = ["Coq 8.16.1 kernel + vm_compute", "hand-written model coq/Model/Bits.v tied by this differential run",
                 "hash functions (zlib.crc32, adler32 stand-in as 2nd algorithm) enter as recorded tables",
                 "params_for float formula is not modelled: m,k are read from the implementation"]
-ASSUMPTIONS = ["get_indexes termination is assumed (fuel 3000 in the model; recorder aborts the implementation after 3000 hash calls)",
+ASSUMPTIONS = ["get_indexes termination is assumed (fuel 20000 in the model; recorder aborts the implementation after 20000 hash calls)",
                "pure-Python Bitarray (cashews/utils/_bitarray.py) is the class importable in this image",
                "Bloom predicate's wrapped function is deterministic per element"]
 EXHAUSTIVE = {"quick": False, "thorough": True}  # thorough enumerates all (index<64, size<=6, |by|<=70) on a fixed seed array
@@ -55,6 +55,11 @@ def gen_cases(rng, tier):
         m = rng.choice([1, 2, 3, 4, 5, 8, 13, 64, 100, 959, 10007])
         k = rng.randint(1, min(m, 9)) if rng.random() < 0.8 else m if m <= 13 else rng.randint(1, 9)
         cases.append({"kind": "idx", "key": rng.choice(ELEMS) + rng.choice(["", ":1", "_", "é"]), "k": k, "m": m, "nalg": rng.choice([1, 1, 2])})
+    for _ in range(ni // 20):     # dense requests: k close to m, long re-probe chains before the last free index is found
+        m = rng.choice([20, 32, 50, 50, 64, 64, 100])
+        k = rng.choice([m, m, m - 1, m - 2, (3 * m) // 4])
+        # (crc32 only: the harness's second stand-in algorithm, adler32, is too weak for dense requests - its residues cycle)
+        cases.append({"kind": "idx", "key": rng.choice(ELEMS) + rng.choice(["", ":1", "_"]), "k": k, "m": m, "nalg": 1})
     nbl = 120 if tier == "quick" else 1200
     for _ in range(nbl):
         n = rng.randint(1, 8)
@@ -83,7 +88,7 @@ class _Recorder:
 
     def _mk(self, ii, f):
         def h(data: bytes):
-            if len(self.calls) > 3000:
+            if len(self.calls) > 20000:
                 raise RuntimeError("hash-call budget exhausted (non-terminating probe?)")
             r = f(data)
             key, _, i = data.decode().rpartition("_")
